@@ -27,7 +27,15 @@ def blk(nb, tier="quick", inplace=0, **kw):
     return o
 
 
-OBLIGATIONS += [blk(64), blk(64, inplace=1), blk(1), blk(63), blk(63, inplace=1, tier="thorough"), blk(65, tier="thorough"), blk(128, tier="thorough"), blk(33, tier="thorough"), blk(129, tier="thorough")]
+OBLIGATIONS += [blk(64), blk(64, inplace=1), blk(1), blk(63), blk(63, inplace=1, tier="thorough"), blk(33, tier="thorough")]
+# lengths above one block: one obligation per output block (the two-block miter in a single query does not finish in 900 s)
+for nb_ in (65, 128, 129):
+    for b_ in range((nb_ + 63) // 64):
+        o_ = blk(nb_, tier="thorough", cbmc=["--unwind", str(nb_ + 12), "--unwinding-assertions"], timeout=1500)
+        o_["name"] += ".blk%d" % b_
+        o_["defs"] = o_["defs"] + ["-DVONLYBLK=%d" % b_]
+        o_["what"] += " [output bytes of block %d; sibling obligations take the other blocks]" % b_
+        OBLIGATIONS.append(o_)
 
 
 def core(name, coreid, fn, rounds=None, have_c=0, tier="quick"):
